@@ -5,24 +5,49 @@ from vlib import std, lab, common
 
 PID = "C03"
 META = {
-    "text": "Theorems (Properties_C03.v) about SmugglingModel.v = ConnStateData::parseRequests / clientProcessRequest / "
-            "HttpRequest::checkEntityFraming / the upstream Content-Length / Transfer-Encoding rules of http.cc, composed "
-            "from the request-parser (C21/C22), header (C25), Content-Length (C26) and chunked-decoder (C24) models, for ALL "
-            "byte streams and both relaxed_header_parser settings: see the theorem list in the file. Tie: method ids, status "
-            "codes and the body-pipe capacity regenerated from the code; the extracted model is diffed against the REAL squid "
-            "(both parser modes) on generated pipelined client streams with Content-Length / Transfer-Encoding / white space / "
-            "line-ending / NUL / bare-CR / obs-fold / duplicate-field / chunk-extension / trailer mutations and classic "
-            "CL.TE / TE.CL / TE.TE payloads; a scripted origin logs every request it receives (line, framing fields, "
-            "de-chunked body).",
-    "note": "partial: the stream-level boundary theorem is proved for the head (request line + field block) extent and for "
-            "the body extent given the framing kind; that Squid's field-level framing DECISION equals the strict reader's on "
-            "every strictly valid field block is proved on entry lists, not yet composed through the field splitter "
-            "(C25) — see the _partial names. That comm/BodyPipe/FwdState move exactly the delimited bytes rests on the "
-            "end-to-end correspondence. Trusted: Coq kernel, extraction, gen/gen_smuggling.cc, vlib/lab.py stubs, the "
-            "reference readers in this file.",
-    "technique": "Coq proof (induction over the connection loop, line-structure lemmas for headersEnd, reuse of the C24/C25/"
-                 "C26 theorems) + end-to-end differential correspondence of the extracted model against the running squid "
-                 "+ independent strict / RFC-tolerant reference readers as oracle",
+    "text": "Theorems (Properties_C03.v, 9, closed under the global context) about SmugglingModel.v = one turn of "
+            "ConnStateData::parseRequests (Http1::RequestParser, HttpHeader::parse with the Content-Length interpreter, "
+            "HttpRequest::checkEntityFraming, the body-length decision of clientProcessRequest, TeChunkedParser, "
+            "finishDechunkingRequest, Message::persistent) and the Content-Length / Transfer-Encoding rules of http.cc, "
+            "composed from the C21/C22, C25, C26 and C24 models, for ALL buffers / streams, both relaxed_header_parser "
+            "settings and every header limit. The strict RFC 9112 reader is given by the shape of what it accepts: "
+            "line CRLF *(line CRLF) CRLF, then n octets or an RFC 9112 7.1 chunked-body (C24's grammar), then the rest. "
+            "(1) C03_head_extent_agrees: whenever the request parser accepts a buffer that starts with such a head as an "
+            "HTTP/1.x message, what it leaves for body and next message is exactly what follows the head's empty line "
+            "(C03_field_block_ends_at_empty_line: headersEnd on every line-structured block). "
+            "(2) C03_message_extent_agrees_partial: if a message is forwarded and Squid's framing decision is the strict "
+            "one (length used = strict length, or chunked with a grammar chunked-body), the message ends where the strict "
+            "one ends, the next message is parsed from exactly the strict reader's rest, and the body handed upstream is the "
+            "strict body (chunked: for a message that ends the buffer; C03_chunked_body_decoded_exactly from C24). "
+            "(3) C03_extents_chain: consecutive events carry consecutive extents. "
+            "(4) C03_forwarded_framing_single: for ALL streams every request that goes upstream carries at most one "
+            "Content-Length value, never together with Transfer-Encoding, and a completely forwarded request no "
+            "Transfer-Encoding at all (C03_parsed_header_single_content_length: HttpHeader::parse leaves <= 1 "
+            "Content-Length entry and none next to Transfer-Encoding, for ALL header blocks). "
+            "(5) C03_reject_stops_reading: for ALL streams an error answer / reset / close / unfinished body is the last "
+            "event. (6) C03_vt_after_chunked_refuted: the full boundary statement is false for the faithful model — "
+            "`Transfer-Encoding: chunked<VT>` is honoured as chunked in both parser modes and the embedded request is "
+            "forwarded as a second request (known finding C03-vt-ff-as-ows, replayed against the running proxy on every "
+            "run). Tie: method ids, status codes, body-pipe capacity, character sets, header table regenerated from the code; "
+            "the extracted model is diffed against the REAL squid (both parser modes) on generated pipelined streams with "
+            "Content-Length / Transfer-Encoding / white-space / line-ending / NUL / bare-CR / obs-fold / duplicate-field / "
+            "chunk-extension / trailer anomalies and CL.TE / TE.CL / TE.TE payloads; a scripted origin logs every request "
+            "it receives (line, framing fields, de-chunked body); the oracle compares them with an independent strict "
+            "reader and a reader taking every tolerance RFC 9112 offers.",
+    "note": "partial: (a) that Squid's framing DECISION equals the strict reader's on every strictly valid field block is a "
+            "hypothesis of C03_message_extent_agrees_partial (its ingredients are C25's field-splitter reference theorem, "
+            "C26's used-iff theorems and C03_parsed_header_single_content_length; not composed); (b) the chunked extent is "
+            "proved for a chunked message that ends the buffer; with pipelined bytes behind it C24's exactness theorem bounds "
+            "the decoder's leftover from one side only; (c) the stream-level induction over messages from (2)+(3) is not "
+            "spelled out; (d) request-target validation (AnyP::Uri), CONNECT/OPTIONS/TRACE/PRI and Expect handling are "
+            "outside the model (distinct EOther event); (e) that comm, BodyPipe and FwdState move exactly the delimited "
+            "bytes rests on the end-to-end correspondence. Two known findings on the unchanged tree: C03-vt-ff-as-ows "
+            "(request-smuggling shape, candidate repair in fixes/) and C03-http09-version-token. Trusted: Coq kernel, "
+            "extraction, gen/gen_smuggling.cc, vlib/lab.py stubs, the reference readers in checks/c03.py.",
+    "technique": "Coq proof (induction over the connection loop and over the header entries, line-structure lemmas for "
+                 "headersEnd, reuse of the C22/C24 theorems, vm_compute witness) + end-to-end differential correspondence "
+                 "of the extracted model against the running squid + independent strict / RFC-tolerant reference readers "
+                 "as oracle",
 }
 
 RID0 = "s000000"
